@@ -639,6 +639,14 @@ func (lb *LoadBalancer) RemoveBackend(name string) {
 	for _, backend := range lb.strategy.GetBackends() {
 		if backend.Name == name {
 			lb.strategy.RemoveBackend(backend)
+			// Stop only walks the backends that are registered: the keep-alive connections
+			// held open to this one are closed here (an exchange in progress is not touched,
+			// its connection is closed when it ends)
+			if backend.ReverseProxy != nil {
+				if t, ok := backend.ReverseProxy.Transport.(interface{ CloseIdleConnections() }); ok {
+					t.CloseIdleConnections()
+				}
+			}
 		}
 	}
 
